@@ -200,7 +200,22 @@ func (x *Exec) termOf(s *State, v *Val) string {
 		}
 		srt := x.c.sortOf(T)
 		if srt == "Int" {
-			// opaque pointee
+			// opaque pointee: a holder object created by valOf carries the opaque id itself, so that a pointer
+			// read from a slice or a field keeps its identity when it is passed on (termOf(valOf(t)) == t)
+			if m := x.objMeta[v.Ptr.Obj]; m != nil && !m.Fresh && len(v.Ptr.Path) == 0 {
+				if id, ok := s.objs[v.Ptr.Obj]; ok && id != "" {
+					return ite(v.Ptr.Nil, "0", id)
+				}
+				if id, ok := x.tmp[v.Ptr.Obj]; ok {
+					return ite(v.Ptr.Nil, "0", id)
+				}
+			}
+			if n := len(v.Ptr.Path); n > 0 && v.Ptr.Path[n-1].Kind == stDeref {
+				// an opaque pointer stored in a slot (slice element, field): the slot holds the opaque id
+				slot := *v.Ptr
+				slot.Path = slot.Path[:n-1]
+				return x.loadTerm(s, &slot)
+			}
 			return ite(v.Ptr.Nil, "0", fmt.Sprintf("(objref %d)", v.Ptr.Obj))
 		}
 		inner := x.loadTerm(s, v.Ptr)
